@@ -147,10 +147,19 @@ def base_specs(thorough):
     return out
 
 
+BIG = 70000  # more than http.client's line limit (65536) of newline-free data inside one chunk
+BIG_SPEC = (BIG, "identity-nolf", "chunked-one")
+STACK_SPECS = [(17, "zstd,gzip", "cl"), (17, "zstd,gzip", "chunked-one")]
+
+
 def build(spec):
     size, coding, fr = spec
-    data = payload(size)
-    ce, body, _ = encode(coding, data)
+    if coding == "identity-nolf":
+        data = b"z" * size  # not a hex digit: the chunk data can never read as a chunk-size line
+        ce, body = None, data
+    else:
+        data = payload(size)
+        ce, body, _ = encode(coding, data)
     if fr == "cl":
         head, wire, marks = frame(body, "cl", ce=ce)
     else:
@@ -182,6 +191,39 @@ def faults(spec, thorough):
     size, coding, fr = spec
     data, body, head, wire = build(spec)
     chunked = fr != "cl"
+    if spec == BIG_SPEC:
+        # a damaged first size line in front of a chunk with more newline-free data than http.client reads as one line
+        a, b = size_line_spans(wire)[0]
+        for pos in range(a, b):
+            for rep in REPL:
+                if wire[pos:pos + 1] == rep:
+                    continue
+                w2 = wire[:pos] + rep + wire[pos + 1:]
+                v = ref_chunked(w2)
+                if v[0] == "bad":
+                    yield (("sizeline", pos, rep), head, w2, "bad", None, data)
+        return
+    if chunked and coding == "identity" and fr == "chunked-one":
+        # a syntactically fine size line that announces more than any body can hold (>= 2**63 and >= 2**64): the bytes
+        # received end before the framing says the chunk is complete
+        a, b = size_line_spans(wire)[0]
+        for digits in (16, 17):
+            w2 = b"f" * digits + wire[b - 2:]
+            yield (("sizeline-huge", digits), head, w2, "bad", None, data)
+    if coding == "zstd,gzip":
+        # a stack whose INNER (first-applied) coding is zstd: the inner stream is cut short, the outer gzip member and the
+        # framing around it are intact - the zstd frame is incomplete all the same
+        import gzip as _gzip
+        import zstandard as _zstd
+        inner = _zstd.ZstdCompressor().compress(data)
+        for k in range(1, len(inner)):
+            b2 = _gzip.compress(inner[:k], mtime=0)
+            if fr == "cl":
+                h2, w2, _ = frame(b2, "cl", ce="zstd, gzip")
+            else:
+                h2, w2, _ = frame(b2, "chunked", chunks=[len(b2)], ce="zstd, gzip")
+            yield (("inner-cut", k), h2, w2, "bad", None, None)
+        return
     # (a) truncation at every point from "no body byte" to "one byte short"
     if chunked:
         last0 = wire.rfind(b"0\r\n")
@@ -422,7 +464,7 @@ def _task(t):
             acc.outcomes[(verdict, res["outcome"], type(res["exc"]).__name__ if res["exc"] else None)] += 1
             for clause, sig, obs, exp in judge(spec, fault, prog, verdict, acceptable, data, res, net):
                 acc.violation(clause, sig, {"spec": list(spec), "fault": list(fault), "prog": list(prog)}, observed=obs, expected=exp)
-            if fault[0] in ("cut", "sizeline") and coding == "identity":
+            if fault[0] in ("cut", "sizeline") and coding in ("identity", "identity-nolf"):
                 # the same broken framing when the caller asked for the raw bytes (decode_content=False with the request,
                 # the way wrappers that decode themselves drive urllib3): the framing rules do not depend on that option
                 res, net = run_program(prog, head, wire, chunked, dc=False)
@@ -447,7 +489,7 @@ def _task(t):
 
 
 def run(ctx):
-    tasks = [(s, ctx.thorough) for s in base_specs(ctx.thorough)]
+    tasks = [(s, ctx.thorough) for s in base_specs(ctx.thorough) + STACK_SPECS + [BIG_SPEC]]
     acc = ctx.gather(_task, tasks)
     cov = {
         "distinct_nontrivial": acc.counters["faulty_inputs"],
@@ -456,7 +498,8 @@ def run(ctx):
         "programs": len(PROGRAMS),
         "rule": "for each base response (size x coding x framing): every truncation point, every single-byte corruption of each "
                 "chunk-size line by %r (identity bodies), every bit flip 0x01/0x10/0x80 at every byte of the compressed stream (bodies <= 70); "
-                "each x every read program, then a second request; non-trivial = distinct faulty wire input" % (REPL,),
+                "each x every read program, then a second request; plus a stack whose inner zstd stream is cut inside intact gzip and framing, "
+                "and a damaged size line in front of a 70000-byte newline-free chunk; non-trivial = distinct faulty wire input" % (REPL,),
     }
     ctx.finish("fault_enumeration", acc, cov,
                assumptions=["reference verdicts from an independent chunked de-framer and zlib/zstandard decompressobj",
